@@ -262,7 +262,10 @@ Init ==
 Next ==
   /\ l <= Len(Trace)
   /\ l' = l + 1
-  /\ IF Trace[l].e = "reset" THEN Reset ELSE Step(Trace[l])
+  /\ CASE Trace[l].e = "reset" -> Reset
+       \* a crash, failed assertion or uncaught exception inside the library is never a behaviour of the network
+       [] Trace[l].e = "abort" -> Chk({"C07", "C08", "C09", "C10", "C11", "C12", "C13", "C14", "C18", "C20"}, "NoAbort", FALSE) /\ UNCHANGED <<n, models, decs, atoms, thOK, defs, lraVis, ovs, seen, last>>
+       [] OTHER -> Step(Trace[l])
 
 Spec == Init /\ [][Next]_vars
 
